@@ -93,6 +93,56 @@ theorem paste_drift_warp_cex :
   refine ⟨by decide +kernel, by decide +kernel, by decide +kernel⟩
 
 
+/-! ## `maybe_int` / `is_almost_int`: nearest-integer semantics for EVERY tolerance -/
+
+/-- **`maybe_int` snaps to the nearest integer, whatever the tolerance** (also `tol > ½`, `tol ≤ 0`, huge).
+There is an integer `k` with `|x - k| ≤ ½` (a nearest integer) such that `maybe_int x tol` is `k` when
+`|x - k| < tol` and `x` itself otherwise; so the result never moves `x` by more than half a unit, and never by
+`tol` or more.  (A truncating shortcut `int(x)` violates this for `tol > ½`: `-19.7 ↦ -19`.) -/
+theorem maybe_int_nearest (x tol : Rat) :
+    ∃ k : Int, rabs (x - k) ≤ 1 / 2 ∧
+      ((rabs (x - k) < tol ∧ maybeInt x tol = (k : Rat)) ∨ (¬ rabs (x - k) < tol ∧ maybeInt x tol = x)) := by
+  obtain ⟨k, e1, e2, e3⟩ := splitFloat_spec x
+  refine ⟨k, by rw [e3]; exact nearMeasure_le_half x, ?_⟩
+  unfold maybeInt
+  by_cases h : rabs (x - k) < tol
+  · left; exact ⟨h, by simp only [e2, h, if_true, e1]⟩
+  · right; exact ⟨h, by simp only [e2, h, if_false]⟩
+
+/-- `is_almost_int` agrees with `maybe_int` for every tolerance: it holds exactly when `maybe_int` snaps, and then
+the snapped value is an integer within `tol` and within half a unit of `x`. -/
+theorem is_almost_int_iff_snaps (x tol : Rat) :
+    isAlmostInt x tol = true ↔ ∃ k : Int, rabs (x - k) ≤ 1 / 2 ∧ rabs (x - k) < tol ∧ maybeInt x tol = (k : Rat) := by
+  obtain ⟨k, e1, e2, e3⟩ := splitFloat_spec x
+  rw [isAlmostInt_eq, decide_eq_true_eq]
+  constructor
+  · intro h
+    refine ⟨k, by rw [e3]; exact nearMeasure_le_half x, by rw [e3]; exact h, ?_⟩
+    unfold maybeInt
+    have : rabs (x - k) < tol := by rw [e3]; exact h
+    simp only [e2, this, if_true, e1]
+  · rintro ⟨j, hj1, hj2, _⟩
+    -- the nearest-integer distance is minimal: `nearMeasure x ≤ |x - j|` for every integer `j`
+    have hk : rabs (x - k) ≤ 1 / 2 := by rw [e3]; exact nearMeasure_le_half x
+    have hj := (rabs_le_iff _ _).mp hj1
+    have hk' := (rabs_le_iff _ _).mp hk
+    by_cases hjk : j = k
+    · subst hjk; rw [← e3]; exact hj2
+    · -- two different integers both within ½ of x: then both distances are exactly ½
+      have d1 : (j : Rat) - k ≤ 1 := by linarith [hj.1, hk'.2]
+      have d2 : (k : Rat) - j ≤ 1 := by linarith [hj.2, hk'.1]
+      have d1' : j - k ≤ 1 := by exact_mod_cast d1
+      have d2' : k - j ≤ 1 := by exact_mod_cast d2
+      have hcase : j = k + 1 ∨ k = j + 1 := by omega
+      rw [← e3]
+      have hj2' := (rabs_lt_iff _ _).mp hj2
+      rw [rabs_lt_iff]
+      rcases hcase with c | c
+      · have : (j : Rat) = k + 1 := by exact_mod_cast c
+        constructor <;> linarith [hj.1, hj.2, hk'.1, hk'.2, hj2'.1, hj2'.2]
+      · have : (k : Rat) = j + 1 := by exact_mod_cast c
+        constructor <;> linarith [hj.1, hj.2, hk'.1, hk'.2, hj2'.1, hj2'.2]
+
 /-! ## paste eligibility: `_can_paste` -/
 
 /-- **Soundness of `paste_ok`.**  Pasting is reported only for transforms without rotation/shear
